@@ -22,14 +22,21 @@ pub struct Case {
 const S: u8 = 0;
 const T: u8 = 1;
 const MS: u64 = 1_000_000;
+/// tokio's timer wheel has millisecond resolution: a deadline is rounded up to the next ms
+const GRAN: u64 = 999_999;
+
+/// sub-millisecond part of a period
+fn us() -> BoxedStrategy<u16> {
+    prop_oneof![3 => Just(0u16), 1 => 1u16..1000].boxed()
+}
 
 pub fn strategy(tier: Tier) -> BoxedStrategy<Case> {
     let max_sched = if tier == Tier::Quick { 160 } else { 320 };
     let timer = prop_oneof![
-        4 => (0u16..50, any::<bool>()).prop_map(|(ms, derived)| Op::SendAfter { to: T, ms, derived }),
-        4 => (1u16..50, any::<bool>()).prop_map(|(ms, derived)| Op::SendInterval { to: T, ms, derived }),
-        1 => (0u16..50).prop_map(|ms| Op::ExitAfter { to: T, ms }),
-        1 => (0u16..50).prop_map(|ms| Op::KillAfter { to: T, ms }),
+        4 => (0u16..50, any::<bool>(), us()).prop_map(|(ms, derived, us)| Op::SendAfter { to: T, ms, derived, us }),
+        4 => (1u16..50, any::<bool>(), us()).prop_map(|(ms, derived, us)| Op::SendInterval { to: T, ms, derived, us }),
+        1 => (0u16..50, us()).prop_map(|(ms, us)| Op::ExitAfter { to: T, ms, us }),
+        1 => (0u16..50, us()).prop_map(|(ms, us)| Op::KillAfter { to: T, ms, us }),
     ];
     let timer_client = proptest::collection::vec((0u16..20, timer), 1..=3).prop_map(|v| {
         let mut out = vec![];
@@ -70,13 +77,13 @@ pub fn strategy(tier: Tier) -> BoxedStrategy<Case> {
                 // make the jitter byte frequent enough to matter
                 for (i, b) in schedule.iter_mut().enumerate() {
                     if i % 5 == 4 && *b > 128 {
-                        *b = 255;
+                        *b = if *b > 230 { 254 } else { 255 };
                     }
                 }
             } else {
                 for b in schedule.iter_mut() {
-                    if *b == 255 {
-                        *b = 254;
+                    if *b >= 254 {
+                        *b = 253;
                     }
                 }
             }
@@ -108,7 +115,8 @@ pub fn check(case: &Case, ex: &Exec) -> Result<(bool, Vec<String>), Violation> {
     let tr = &ex.trace;
     let op_of = |c: usize, i: usize| sc.clients.get(c).and_then(|ops| ops.get(i));
     let mut timers: HashMap<usize, Timer> = HashMap::new();
-    let mut advances: Vec<u64> = vec![];
+    // (virtual time after the advance, amount in ns)
+    let mut advances: Vec<(u64, u64)> = vec![];
     let mut labels = vec![];
     // target leaves the active states (sampled) / first sampled Stopped
     let mut te: Option<u64> = None;
@@ -116,7 +124,7 @@ pub fn check(case: &Case, ex: &Exec) -> Result<(bool, Vec<String>), Violation> {
     let mut kill_causes: Vec<u64> = vec![];
     for (pos, e) in tr.iter().enumerate() {
         match &e.ev {
-            Ev::Note(n) if n == "advance" => advances.push(e.t_ns),
+            Ev::Note(n) if n.starts_with("advance ") => advances.push((e.t_ns, n[8..].parse().unwrap_or(MS))),
             Ev::Note(n) if n.starts_with("fire ") => {
                 let mut it = n.split(' ').skip(1);
                 let tid: usize = it.next().unwrap().parse().unwrap();
@@ -140,8 +148,8 @@ pub fn check(case: &Case, ex: &Exec) -> Result<(bool, Vec<String>), Violation> {
             },
             Ev::OpEnd { c, i, res } => match (op_of(*c, *i), res) {
                 (Some(op @ (Op::SendAfter { .. } | Op::SendInterval { .. } | Op::ExitAfter { .. } | Op::KillAfter { .. })), Res::Found(tid)) => {
-                    if let Op::KillAfter { ms, .. } = op {
-                        kill_causes.push(e.t_ns + *ms as u64 * MS);
+                    if let Op::KillAfter { ms, us, .. } = op {
+                        kill_causes.push(e.t_ns + *ms as u64 * MS + *us as u64 * 1000);
                     }
                     timers.insert(*tid as usize, Timer { op: op.clone(), t0: e.t_ns, pos0: pos, fires: vec![], abort: None, awaited: None });
                 }
@@ -162,7 +170,8 @@ pub fn check(case: &Case, ex: &Exec) -> Result<(bool, Vec<String>), Violation> {
             _ => {}
         }
     }
-    let adv_in = |lo: u64, hi: u64| advances.iter().filter(|t| **t > lo && **t <= hi).count() as u64;
+    // injected delay (ns) that can have hit a deadline in (lo, hi]: an advance that ended inside the window
+    let adv_in = |lo: u64, hi: u64| advances.iter().filter(|(t, _)| *t > lo && *t <= hi).map(|(_, a)| *a).sum::<u64>();
     let complete = ex.end_main == DriveEnd::Done;
     let mut nontrivial = false;
     for (tid, t) in &timers {
@@ -172,8 +181,8 @@ pub fn check(case: &Case, ex: &Exec) -> Result<(bool, Vec<String>), Violation> {
             return Err(viol("C12/delivered-more-than-fired", format!("timer {tid}: {handled} messages handled but the message closure ran {} times", t.fires.len())));
         }
         match &t.op {
-            Op::SendAfter { ms, .. } => {
-                let p = *ms as u64 * MS;
+            Op::SendAfter { ms, us, .. } => {
+                let p = *ms as u64 * MS + *us as u64 * 1000;
                 let deadline = t.t0 + p;
                 if t.fires.len() > 1 {
                     return Err(viol("C12/one-shot-fired-twice", format!("send_after timer {tid} fired {} times", t.fires.len())));
@@ -182,8 +191,8 @@ pub fn check(case: &Case, ex: &Exec) -> Result<(bool, Vec<String>), Violation> {
                     if *ft < deadline {
                         return Err(viol("C12/fired-early", format!("send_after({ms}ms) created at t={} fired at t={ft} (#{pos})", t.t0)));
                     }
-                    let late_ok = adv_in(t.t0, *ft) * MS;
-                    if *ft > deadline + late_ok {
+                    let late_ok = adv_in(t.t0, *ft);
+                    if *ft > deadline + late_ok + GRAN {
                         return Err(viol("C12/fired-late", format!("send_after({ms}ms) created at t={} fired at t={ft}, {}ns late with only {late_ok}ns of injected delay", t.t0, ft - deadline)));
                     }
                     if let Some((apos, at)) = t.abort {
@@ -193,7 +202,7 @@ pub fn check(case: &Case, ex: &Exec) -> Result<(bool, Vec<String>), Violation> {
                     }
                 }
                 if complete {
-                    let aborted_before = t.abort.map_or(false, |(_, at)| at <= deadline + adv_in(t.t0, at.max(deadline)) * MS);
+                    let aborted_before = t.abort.map_or(false, |(_, at)| at <= deadline + adv_in(t.t0, at.max(deadline)) + GRAN);
                     if t.fires.is_empty() && !aborted_before {
                         return Err(viol("C12/one-shot-never-fired", format!("send_after({ms}ms) timer {tid} was not aborted before its deadline but never fired")));
                     }
@@ -234,10 +243,10 @@ pub fn check(case: &Case, ex: &Exec) -> Result<(bool, Vec<String>), Violation> {
                     }
                 }
             }
-            Op::SendInterval { ms, .. } => {
-                let p = (*ms).max(1) as u64 * MS;
+            Op::SendInterval { ms, us, .. } => {
+                let p = (*ms).max(1) as u64 * MS + *us as u64 * 1000;
                 let mut first: Option<u64> = None;
-                let late1_max = t.fires.first().map(|(_, ft, _)| adv_in(t.t0, *ft) * MS).unwrap_or(0);
+                let late1_max = t.fires.first().map(|(_, ft, _)| adv_in(t.t0, *ft)).unwrap_or(0);
                 for (idx, (pos, ft, k)) in t.fires.iter().enumerate() {
                     let kk = idx as u64 + 1;
                     if *k as u64 != kk {
@@ -247,10 +256,10 @@ pub fn check(case: &Case, ex: &Exec) -> Result<(bool, Vec<String>), Violation> {
                         return Err(viol("C12/fired-early", format!("send_interval({ms}ms) created at t={}: tick {kk} at t={ft} (#{pos})", t.t0)));
                     }
                     let upper = match first {
-                        None => t.t0 + p + adv_in(t.t0, *ft) * MS,
+                        None => t.t0 + p + adv_in(t.t0, *ft) + GRAN,
                         Some(f1) => {
                             let d = f1 + (kk - 1) * p;
-                            d + adv_in(d.saturating_sub(late1_max), *ft) * MS
+                            d + adv_in(d.saturating_sub(late1_max + GRAN), *ft) + GRAN
                         }
                     };
                     if *ft > upper {
@@ -268,7 +277,7 @@ pub fn check(case: &Case, ex: &Exec) -> Result<(bool, Vec<String>), Violation> {
                         }
                     }
                     if let Some(x) = te {
-                        if *ft > x + p + adv_in(x, *ft) * MS {
+                        if *ft > x + p + adv_in(x, *ft) + GRAN {
                             return Err(viol("C12/interval-outlives-target", format!("interval {tid} ({ms}ms) ticked at t={ft} although its target left the running states at t={x}")));
                         }
                     }
@@ -278,7 +287,7 @@ pub fn check(case: &Case, ex: &Exec) -> Result<(bool, Vec<String>), Violation> {
                     let horizon = [te, t.abort.map(|a| a.1)].into_iter().flatten().min();
                     if let Some(h) = horizon {
                         if h > t.t0 {
-                            let expected = (h - t.t0 - 1) / p; // ticks strictly before the horizon
+                            let expected = (h - t.t0 - 1).saturating_sub(GRAN) / p; // ticks due (incl. timer granularity) strictly before the horizon
                             if (t.fires.len() as u64) < expected {
                                 return Err(viol("C12/interval-missed-ticks", format!("interval {tid} ({ms}ms) created at t={} ticked {} times before t={h}, expected at least {expected}", t.t0, t.fires.len())));
                             }
@@ -311,7 +320,13 @@ pub fn check(case: &Case, ex: &Exec) -> Result<(bool, Vec<String>), Violation> {
         if let Ev::Enter { a: 0, cb: Cb::Sup, tag: Tag::Terminated { who: 1, reason: Some(r), .. } } = &e.ev {
             if let Some(rest) = r.strip_prefix("Exit after ") {
                 let ms: u64 = rest.trim_end_matches("ms").parse().unwrap_or(u64::MAX);
-                let ok = timers.values().any(|t| matches!(&t.op, Op::ExitAfter { ms: m, .. } if *m as u64 == ms) && t_stopped.map_or(true, |ts| ts >= t.t0 + ms * MS) && e.t_ns >= t.t0 + ms * MS);
+                let ok = timers.values().any(|t| match &t.op {
+                    Op::ExitAfter { ms: m, us, .. } if *m as u64 == ms => {
+                        let due = t.t0 + ms * MS + *us as u64 * 1000;
+                        t_stopped.map_or(true, |ts| ts >= due) && e.t_ns >= due
+                    }
+                    _ => false,
+                });
                 if !ok {
                     return Err(viol("C12/exit_after-early-or-wrong-reason", format!("supervisor saw reason {r:?} at t={} (#{pos}); no exit_after timer explains it", e.t_ns)));
                 }
@@ -328,9 +343,9 @@ pub fn check(case: &Case, ex: &Exec) -> Result<(bool, Vec<String>), Violation> {
     if complete {
         // exit_after with nothing else stopping the target earlier must produce its reason
         for t in timers.values() {
-            if let Op::ExitAfter { ms, .. } = &t.op {
-                let due = t.t0 + *ms as u64 * MS;
-                let aborted = t.abort.map_or(false, |(_, at)| at <= due + adv_in(t.t0, due.max(at)) * MS);
+            if let Op::ExitAfter { ms, us, .. } = &t.op {
+                let due = t.t0 + *ms as u64 * MS + *us as u64 * 1000;
+                let aborted = t.abort.map_or(false, |(_, at)| at <= due + adv_in(t.t0, due.max(at)) + GRAN);
                 let other_first = te.map_or(false, |x| x < due) ;
                 if !aborted && !other_first && !case.jitter {
                     let seen = tr.iter().any(|e| matches!(&e.ev, Ev::Enter { a: 0, cb: Cb::Sup, tag: Tag::Terminated { who: 1, reason: Some(r), .. } } if r.starts_with("Exit after ")));
